@@ -481,8 +481,8 @@ def rule_sdmx(chk, cx):
     cfg = {
         "SADMPlan": lambda: s.new(ST, "SADMSettings", K("smooth")),
         "SDMXPlan": lambda: s.new(ST, "SDMXG1Settings", pows(), num(2), num(1)),
-        "SDMXFullPlan": lambda: s.new(ST, "SDMXFullSettings", Map({Fraction(1): Tup([pows(), kinds()]),
-                                                                    Fraction(2): Tup([pows(), kinds()])})),
+        "SDMXFullPlan": lambda: s.new(ST, "SDMXFullSettings", Map({Fraction(2): Tup([pows(), kinds()]),
+                                                                    Fraction(1): Tup([pows(), kinds()])})),
         "SDMXIntPlan": lambda: s.new(ST, "SDMXFullSettings", Map({Fraction(1): Tup([pows(), kinds()])})),
     }
     for cname in classes:
